@@ -264,6 +264,16 @@ theorem primary_burst_rejected (t : Nat) (ht : t = 1 ∨ t = 2) (bs bs' r x : By
     (hacc : parsePrimary bs = .ok x) : parsePrimary bs' = .error .crc :=
   Lemmas.primary_burst_rejected t ht bs bs' r x n n' hn hn' h1 h2 hlen hb hne hacc
 
+/-! Not proved (stated here so that the gap is visible): `straddle_rejected` — a burst of at most the CRC
+width that changes the last `j` protected bits before the CRC item, leaves the item's head byte (0x42 /
+0x44) intact and changes the first `i` bits of the transmitted value (`j + 8 + i ≤ 16/32`). BPv7 stores a
+reflected CRC big-endian over a zeroed field, so this is not an instance of the burst theorem; it is a
+finite statement about the two polynomials (a rank computation outside Lean finds no undetected pattern
+for either CRC; kernel evaluation of the 2²³ cases through `BitVec` is too slow). The correspondence
+enumerates it: every such pattern for CRC-16 blocks, every shape (j, i) with random fillings for CRC-32
+blocks, in every block of every generated bundle. The two halves are theorems: `block_burst_rejected`
+(change before the value only) and `field_error_rejected` (change of the value only). -/
+
 /-- **`field_error_rejected`**: any change of the transmitted CRC value itself is rejected. -/
 theorem field_error_rejected (t : Nat) (buf field field' rest rest' : Bytes)
     (hf' : field'.length ≤ maxInt32) (hne : field ≠ field')
